@@ -200,7 +200,7 @@ def judge_pipeline(rec, rf, txns, rows, tmp, rnd, ptxns=None):
             break
 
 
-def judge_legacy_parsers(rec, rf, txns, tmp, rnd):
+def judge_legacy_parsers(rec, rf, txns, tmp, rnd, what='triple'):
     """The deprecated amex / boa readers classify with the same rules: each row gets the triple of its first matching categorizing rule
     (no transforms, no custom fields, no supplemental data reach the matcher on this path)."""
     import re as _re
@@ -241,6 +241,13 @@ def judge_legacy_parsers(rec, rf, txns, tmp, rnd):
         for t, r, g in zip(pt, refs, got):
             rec.case()
             rec.count('legacy_parser_path_checks')
+            if what == 'tags':
+                # (C02 reuses this path for the tag sets)
+                if g['tags'] != r['tags']:
+                    rec.violation('legacy-parser-tags-differ-from-union:' + which, f'parse_{which}: row {t["description"]!r} amount={t["amount"]} date={t["date"]} tags '
+                                  f'{sorted(g["tags"])}, union over matching rules {r["matching"]} is {sorted(r["tags"])}', case)
+                    break
+                continue
             if g['triple'] != r['triple']:
                 rec.violation('legacy-parser-triple-differs-from-reference:' + which,
                               f'parse_{which}: row {t["description"]!r} amount={t["amount"]} date={t["date"]} got {g["triple"]}, first matching categorizing rule '
@@ -304,6 +311,14 @@ def run(rec, shard, nshards, t):
                 # normalized() ignores every kind of blank (no-break, thin, ideographic space too), hyphens, apostrophes, dots and asterisks
                 rf.rules.insert(rnd.randint(0, len(rf.rules)), R.Rule('NormFirst', rnd.choice(['normalized("UBEREATS")', 'normalized("WHOLEFOODSMKT")', 'normalized("whole foods")',
                                                                                            'normalized("STARBUCKS")']), 'Normalized', 'x'))
+            if rnd.random() < .15:
+                # a let: binding that cannot be evaluated is bound to nothing (None) and the condition is still evaluated: a comparison with it is false,
+                # the rest of the condition decides
+                w = rnd.choice(['NETFLIX', 'UBER', 'COSTCO', 'STAR', 'a'])
+                rf.rules.insert(rnd.randint(0, len(rf.rules)), R.Rule('LetNone', rnd.choice(['(note == "BONUS" or contains("%s"))', 'contains("%s") and note != "x"',
+                                                                                          'contains("%s") and not (note == "y")']) % w, 'LetNone', 'x',
+                                                                    lets=[('note', rnd.choice(['field.nosuchcolumn', 'nosuchname', 'extract(field.nosuch, "(x)")']))]))
+                rec.count('files_with_an_unevaluable_let_read_by_its_condition')
             rows = world.ROWSETS[0] if rnd.random() < .7 else rnd.choice(world.ROWSETS)
             txns = world.pool(rnd, ntx, with_fields=rnd.random() < .6)      # else ~15% of the transactions carry no custom fields at all
             txns += world.field_twins(rnd, txns)
